@@ -58,10 +58,22 @@ if r4:
     out.append("  sites per property).  First sight with the rules frozen at commit 09eacd6: **%d/%d (%d%%) by the target property's check," % (f4t, n4, round(100.0 * f4t / n4)))
     out.append("  %d/%d (%d%%) by some check**.  After the response (rule assignments; R-WRITE-TO-COPY, R-EXPORT-KIND, the GetID clause of" % (f4a, n4, round(100.0 * f4a / n4)))
     out.append("  R-IDSPACE): %d/%d by the target check, %d/%d by some check." % (sum(1 for r in r4 if r[4]), n4, sum(1 for r in r4 if r[5]), n4))
+r5 = [r for r in rows if r[2] == 5]
+if r5:
+    n5 = len(r5)
+    f5t = sum(1 for r in r5 if r[7])
+    f5a = sum(1 for r in r5 if r[8])
+    out.append("* **Round 5** (%d changes for ten properties not revisited in round 4: C03–C05, C07, C08, C10, C12, C13, C15, C17; nine used" % n5)
+    out.append("  sites shown per property).  First sight with the rules frozen at commit f5fe050: **%d/%d (%d%%) by the target property's check," % (f5t, n5, round(100.0 * f5t / n5)))
+    out.append("  %d/%d (%d%%) by some check**.  After the response (R-MODIFIER-RESET, R-REINDEXABLE-IMPL, R-PARSE-RECURSION, new clauses of" % (f5a, n5, round(100.0 * f5a / n5)))
+    out.append("  R-FRESH-ID, R-TYPE-DEDUP, R-BUILDER-FLOW, R-ENCODE-WRITES, R-REORG-INV; rule assignments): %d/%d by the target check, %d/%d by" % (sum(1 for r in r5 if r[4]), n5, sum(1 for r in r5 if r[5]), n5))
+    out.append("  some check.  Two sub-agents of this round also reported defects of the *unmodified* tree, both confirmed and repaired")
+    out.append("  (3e81fe2, 0648151; §5b) — eight older seeds and nine neutral patches that edit the repaired functions were ported to the")
+    out.append("  new tree by hand and re-validated.")
 out.append("")
 out.append("The thorough tier re-applies, for each property, every change listed here as caught by it and requires the check to fire.")
 out.append("")
-out.append("| id | what the change does | target check fires | fires under | deciding rules | first sight (rounds 2–4) |")
+out.append("| id | what the change does | target check fires | fires under | deciding rules | first sight (rounds 2–5) |")
 out.append("|---|---|---|---|---|---|")
 for name, prop, rnd, summ, tgt, fires, rules, fst, fsa in rows:
     out.append("| %s | %s | %s | %s | %s | %s |" % (name, summ, "yes" if tgt else "no", ",".join(fires) or "—", ", ".join(rules)[:110] or "—",
